@@ -253,6 +253,15 @@ pub const EXTRA_HEADER_NAMES: [&str; 52] = [
     "x'f#$&*",
 ];
 
+thread_local! {
+    static LITERAL_SIGNATURE: std::cell::Cell<bool> = const { std::cell::Cell::new(false) };
+}
+
+/// From now on (this thread) the value of an `X-Amz-Signature` parameter is written as it is, whatever the spelling level.
+pub fn set_literal_signature_spelling(on: bool) {
+    LITERAL_SIGNATURE.with(|c| c.set(on));
+}
+
 pub fn gen_header_value(r: &mut Rng) -> Vec<u8> {
     let n = r.usize_below(12);
     let mut v: Vec<u8> = Vec::new();
@@ -883,6 +892,13 @@ impl<'a> Speller<'a> {
             }
             let (n, v) = &pairs[*i];
             out.extend_from_slice(&self.qcomponent(n, true));
+            if n == b"X-Amz-Signature" && LITERAL_SIGNATURE.with(|c| c.get()) {
+                // (C07's tracer: probes must differ in the signature's characters only — spelling the value draws random
+                // numbers, and how many depends on the characters, which would re-spell everything after it)
+                out.push(b'=');
+                out.extend_from_slice(v);
+                continue;
+            }
             if v.is_empty() && !n.is_empty() && self.vary(1, 2) {
                 // "a" and "a=" denote the same pair
             } else {
